@@ -241,6 +241,7 @@ class Check:
         with ThreadPoolExecutor(max_workers=12) as ex:
             for f, nums, out in ex.map(one, files):
                 if nums is None:
+                    self.model_eval_failed = True
                     self.broken.append({"kind": "model-eval", "name": str(f), "detail": tail(out)})
                     self.say(f"[{self.pid}] model evaluation failed for {f}:\n{tail(out)}")
                     return None
@@ -264,9 +265,11 @@ class Check:
                 if code is not None and not (code & 1) and listed:
                     for fid in listed:
                         self.known_hits.setdefault(fid, []).append(c)
-                elif code is None and self.known:
-                    # the model could not be evaluated (reported separately as a broken obligation): an oracle failure
-                    # cannot be told from a listed finding, so it is not presented as a new failing input
+                elif code is None and self.known and getattr(self, "model_eval_failed", False):
+                    # the model could not be evaluated in THIS run (coq_eval failed; reported separately as a broken
+                    # obligation): an oracle failure cannot be told from a listed finding, so it is not presented as
+                    # a new failing input.  A caller that passes codes=None on purpose (model-less stream) is not
+                    # affected: there every oracle failure is a violation.
                     self.unattributed = getattr(self, "unattributed", 0) + 1
                 else:
                     self.violation(c, "; ".join(c["oracle_fail"]))
